@@ -5,6 +5,7 @@ import (
 	"fmt"
 	"math/rand"
 	"sort"
+	"os"
 	"strings"
 	"time"
 
@@ -110,6 +111,8 @@ func (w *nftWorkload) dataField(cur string) (string, string) {
 	}
 }
 
+var nftOddClassIDs = []string{"tibc-art", "tibc-art\x00vip", "tibcart", "ibcart", "pegasus", "htltx", "cls/a", "cls/a/b", "Upper1", "ab", "a-b-c", "cls\x00a"}
+
 // Next generates 1..4 NFT txs.
 func (w *nftWorkload) Next(block int) []rig.Tx {
 	rng := w.run.Rng
@@ -124,6 +127,27 @@ func (w *nftWorkload) Next(block int) []rig.Tx {
 		}
 	}
 	w.followUp = nil
+	var last []sdk.Msg
+	if k := block - 9; !w.quiet && k >= 0 && k <= len(nftOddClassIDs) {
+		// class ids of unusual spelling (reserved beginnings, a dash, a zero byte, a separator), one per block: whichever of
+		// them the chain accepts is a class like any other from then on, and tokens are minted into it in the next block.
+		// (A refused one is refused before its sequence number is consumed: it goes last in its block.)
+		a := r.Acc(0)
+		if k > 0 {
+			if c := w.model[nftOddClassIDs[k-1]]; c != nil {
+				for n := 0; n < 2; n++ {
+					tid := fmt.Sprintf("tok%d", w.nTok)
+					w.nTok++
+					out = append(out, r.Mk(a, &nftTag{Op: "mint"}, &nfttypes.MsgMintNFT{Id: tid, DenomId: nftOddClassIDs[k-1], Name: "odd", URI: "u", Data: "{}", Sender: c.Creator, Recipient: c.Creator}))
+				}
+				w.run.Count("class-id-of-unusual-spelling-accepted", 1)
+			}
+		}
+		if k < len(nftOddClassIDs) {
+			last = append(last, &nfttypes.MsgIssueDenom{Id: nftOddClassIDs[k], Name: "odd", Schema: "s", Sender: a.Addr.String(), Symbol: "sy", Description: "d", Uri: "u", UriHash: "h", Data: "{}"})
+			w.run.Count("class-id-of-unusual-spelling-tried", 1)
+		}
+	}
 	if classes := w.sortedClasses(); len(classes) > 0 && block == 12 && !w.quiet {
 		// one owner holds more than a hundred tokens of one class (list queries page at 100)
 		cid := classes[0]
@@ -248,6 +272,9 @@ func (w *nftWorkload) Next(block int) []rig.Tx {
 			out = append(out, r.Mk(actor, &nftTag{Op: "transfer-class"}, &nfttypes.MsgTransferDenom{Id: cid, Sender: actor.Addr.String(), Recipient: w.recipient()}))
 		}
 	}
+	for _, m := range last {
+		out = append(out, r.Mk(r.Acc(0), &nftTag{Op: "issue"}, m))
+	}
 	return out
 }
 
@@ -321,6 +348,7 @@ func modify(cur, target string) string {
 
 // Observe advances the reference model with every successful tx and, if a run is attached for C14, judges permission.
 func (w *nftWorkload) Observe(br *rig.BlockRecord) {
+	judgeSnapPanics(w.run, w.r, "C14:nft", w.quiet)
 	for _, tx := range br.Txs {
 		tag, _ := tx.Tag.(*nftTag)
 		if tag != nil && tag.Op == "bundle-rolled-back" {
@@ -375,6 +403,9 @@ func (w *nftWorkload) apply(br *rig.BlockRecord, tx *rig.TxRecord, tag *nftTag) 
 			w.model[m.Id] = &nftClass{Creator: m.Sender, MintRestricted: m.MintRestricted, UpdateRestricted: m.UpdateRestricted, Name: m.Name, Schema: m.Schema, Symbol: m.Symbol, Desc: m.Description, URI: m.Uri, URIHash: m.UriHash, Data: m.Data, Toks: map[string]*nftTok{}}
 		}
 		run.Class("issue", fmt.Sprint("dup=", exists), fmt.Sprint(m.MintRestricted, m.UpdateRestricted), outcome)
+		if m.Name == "odd" {
+			run.Count(fmt.Sprintf("odd-class-id %q: %s", m.Id, outcome+" "+htErrClass(tx.Result.Log)), 1)
+		}
 	case *nfttypes.MsgMintNFT:
 		c := w.model[m.DenomId]
 		if c == nil {
@@ -609,6 +640,9 @@ func (w *nftWorkload) compare(br *rig.BlockRecord, tx *rig.TxRecord, s *nftSnap)
 		if cc.MintRestricted != mc.MintRestricted || cc.UpdateRestricted != mc.UpdateRestricted || cc.Name != mc.Name || cc.Schema != mc.Schema || cc.Symbol != mc.Symbol || cc.Desc != mc.Desc || cc.URI != mc.URI || cc.URIHash != mc.URIHash || cc.Data != mc.Data {
 			run.Violation("C14:nft:class-attributes-changed", det, "class %s attributes on chain %+v, expected %+v", id, *cc, *mc)
 		}
+		if os.Getenv("VERIF_DEBUG") == "nftodd" && strings.HasPrefix(id, "tibc-") {
+			fmt.Fprintf(os.Stderr, "DBG h=%d %q chain=%d model=%d supply=%d\n", br.Height, id, len(cc.Toks), len(mc.Toks), s.Supply[id])
+		}
 		if len(cc.Toks) != len(mc.Toks) {
 			run.Violation("C14:nft:token-set-differs", det, "class %s has %d tokens on chain, %d expected", id, len(cc.Toks), len(mc.Toks))
 		}
@@ -673,6 +707,7 @@ func runNFT(run *ev.Run, c int) {
 	r := rig.New(rig.Options{Seed: fmt.Sprintf("nft-%d-%d", run.Seed, c), NumAccounts: 5, Balances: sdk.NewCoins(sdk.NewInt64Coin(rig.BondDenom, 1_000_000)), InflationOff: true, SubSecond: c%2 == 1})
 	w.Attach(run, r)
 	r.Snapshot = func(ctx sdk.Context) any { return w.snapshot(ctx) }
+	r.SnapRecover = true
 	blocks := tierN(run.Tier, 200, 450)
 	for b := 0; b < blocks; b++ {
 		restartFromOwnExport(run, r, c, b, blocks)
